@@ -20,10 +20,10 @@ type Board interface {
 // (Offset = position, ID replaced on send). IDs are deterministic ("m-<offset>") so that histories
 // can be compared across runs.
 type MemBoard struct {
-	mu      sync.Mutex
-	msgs    []storage.Message
-	ignID   map[string]struct{}
-	ignOff  map[uint64]struct{}
+	mu       sync.Mutex
+	msgs     []storage.Message
+	ignID    map[string]struct{}
+	ignOff   map[uint64]struct{}
 	OnAppend func(m storage.Message)
 }
 
@@ -147,9 +147,9 @@ type NodeBoard struct {
 	Inner Board
 	Owner string
 
-	mu    sync.Mutex
-	Sent  []storage.Message
-	gate  Gate
+	mu   sync.Mutex
+	Sent []storage.Message
+	gate Gate
 	// Limit, when >0, caps the positions visible to GetMessages (simulates "the board as of an
 	// earlier instant", i.e. a different split of consumption into polls).
 	Limit int
